@@ -170,7 +170,7 @@ fn scheme_b64(oti: &OtiSpec, tl: u64) -> Option<String> {
     }
 }
 
-fn file_expect(run: &ScriptRun, i: usize, publish_window: (SystemTime, SystemTime)) -> Value {
+fn file_expect(run: &ScriptRun, i: usize, publish_window: (SystemTime, SystemTime), pub_sec: Option<u64>) -> Value {
     let o = &run.objs[i];
     let oti = run.oti_of(i);
     let tl = run.transfer_len[i].unwrap_or(0);
@@ -187,7 +187,12 @@ fn file_expect(run: &ScriptRun, i: usize, publish_window: (SystemTime, SystemTim
         None => json!({"kind": "none"}),
         Some(CacheSpec::NoCache) => json!({"kind": "no-cache"}),
         Some(CacheSpec::MaxStale) => json!({"kind": "max-stale"}),
-        Some(CacheSpec::ExpiresSecs(s)) => json!({"kind": "expires", "min": ntp_sec(publish_window.0) + s - 1, "max": ntp_sec(publish_window.1) + s + 1}),
+        // relative directive: counted from the publication of THIS instance (its Expires attribute minus the FDT
+        // duration gives the publication second), not from any earlier one
+        Some(CacheSpec::ExpiresSecs(s)) => match pub_sec {
+            Some(ps) => json!({"kind": "expires", "min": ps + s - 1, "max": ps + s + 1}),
+            None => json!({"kind": "expires", "min": ntp_sec(publish_window.0) + s - 1, "max": ntp_sec(publish_window.1) + s + 1}),
+        },
         Some(CacheSpec::ExpiresAtSecs(s)) => {
             let t = ntp_sec(util::t0() + Duration::from_secs(s));
             json!({"kind": "expires", "min": t - 1, "max": t + 1})
@@ -293,7 +298,7 @@ fn judge_run(run: &ScriptRun, gname: &'static str, case: usize, items: &Mutex<Ve
         let mut files = Map::new();
         for (i, t) in run.tois.iter().enumerate() {
             if let Some(t) = t {
-                files.insert(t.to_string(), file_expect(run, i, (first_pub, inst.t_first)));
+                files.insert(t.to_string(), file_expect(run, i, (first_pub, inst.t_first), pub_sec));
             }
         }
         let complete_set = run.ops.iter().any(|o| o.op == Op::SetComplete && o.t <= inst.t_first);
